@@ -250,4 +250,12 @@ def oneshot (env : Env) (w : World) : UnitResult × World :=
   | none => (.outside, w)
   | some _ => (.completed, w)
 
+/-- Consecutive iterations of `run`'s loop; stops at the first iteration that does not complete. -/
+def runUnits : List UnitEnv → RunState → World → UnitResult × RunState × World
+  | [], rs, w => (.completed, rs, w)
+  | u :: rest, rs, w =>
+    match runUnit u rs w with
+    | (.completed, rs', w') => runUnits rest rs' w'
+    | other => other
+
 end Omaha.SM
